@@ -433,6 +433,9 @@ func init() {
 
 	reg("syscall.EpollCtl", func(e *Engine, args []Value, fn *ssa.Function) Value { return Iface{} })
 	// reflect / misc
+	reg("reflect.DeepEqual", func(e *Engine, args []Value, fn *ssa.Function) Value {
+		return e.deepEq(args[0], args[1], 0)
+	})
 	reg("reflect.TypeOf", func(e *Engine, args []Value, fn *ssa.Function) Value { return Iface{} })
 	reg("os.Getenv", func(e *Engine, args []Value, fn *ssa.Function) Value { return Str{} })
 	reg("os.Getpid", func(e *Engine, args []Value, fn *ssa.Function) Value { return e.intC(4242) })
